@@ -116,6 +116,8 @@ pub fn field_use(nodes: &[Node], scopes: &mut Vec<String>, dynamic: bool, fu: &m
                 use_val(&t.is, scopes, true, fu);
                 if let Some(items) = &t.data {
                     use_val(&Val::Bind(Expr::Obj(items.clone())), scopes, true, fu)
+                } else if let Some(e) = &t.data_expr {
+                    use_val(&Val::Bind(e.clone()), scopes, true, fu)
                 }
             }
             Node::Slot(s) => {
